@@ -71,6 +71,7 @@ type c08world struct {
 	sess     map[string]*c08sess
 	order    []string
 	epoch    int // number of crashes so far
+	stopTimedOut bool // a graceful stop hit its (short, configured) shutdown timeout
 	gen      int // number of graceful restarts so far
 	fails    map[string]int
 	maxFail  int
@@ -120,6 +121,9 @@ func c08Gen(r *sim.Rand, tier string) *sim.Case {
 	cs.Knobs["base_ms"] = int64(sim.Pick(r, 500, 1000, 2000))
 	cs.Knobs["maxdelay_s"] = int64(sim.Pick(r, 4, 8, 30))
 	cs.Knobs["interim"] = int64(r.N(2))
+	if r.P(25) {
+		cs.Knobs["shutdown_s"] = int64(sim.Pick(r, 2, 5, 10))
+	}
 	cs.Knobs["skipmax"] = int64(sim.Pick(r, 1, 2, 8, 32))
 	cs.Knobs["maporder"] = int64(r.N(4))
 	switch cs.Variant {
@@ -243,7 +247,8 @@ func (w *c08world) serve(p *radius.Packet, addr string, raw []byte) *radius.Pack
 			c.Fail("stop-before-start", "stop-before-start/"+kind, "Accounting-Stop for %s accepted at %v before any Accounting-Start for it was accepted", s.sid, rec.at)
 		}
 		// "absent a crash": only histories in which no crash has happened yet
-		if s.stopAckEpoch == w.epoch && w.epoch == 0 {
+		// (a graceful stop that ran into its shutdown timeout abandoned work in flight, as a crash does)
+		if s.stopAckEpoch == w.epoch && w.epoch == 0 && !w.stopTimedOut {
 			kind := "same-run"
 			if s.stopAckGen != w.gen {
 				kind = "after-graceful-restart"
@@ -319,6 +324,11 @@ func (w *c08world) startManager() {
 		cfg.InterimEnabled = cs.Knob("interim", 0) == 1
 		cfg.DefaultInterimInterval = 20 * time.Second
 		cfg.QueueSize = 64
+		if st := cs.Knob("shutdown_s", 0); st > 0 {
+			// a short (legal) shutdown timeout: a graceful stop during a RADIUS outage runs out of
+			// time while Stops are still being attempted
+			cfg.ShutdownTimeout = time.Duration(st) * time.Second
+		}
 		mgr, err := bngradius.NewAccountingManager(cl, cfg, zap.NewNop())
 		if err != nil {
 			panic(err)
@@ -487,8 +497,13 @@ func c08Run(c *sim.Ctx) {
 			pending, par = nil, false
 			if !w.node.Dead() {
 				mgr := w.mgr
+				t0 := c.S.Now()
 				t := c.S.Spawn("op-gstop", w.node, func() { mgr.Stop() })
 				c.S.Join(t)
+				if st := cs.Knob("shutdown_s", 0); st > 0 && c.S.Now()-t0 >= time.Duration(st)*time.Second {
+					w.stopTimedOut = true
+					c.S.Fault("shutdown.timeout")
+				}
 				if !w.node.Dead() {
 					c.S.Fault("crash.graceful")
 					// sessions active at a graceful stop have been drained
